@@ -53,6 +53,10 @@ def _observe(args):
             last = in_repo[-1]
             return {"_impl_error": f"{type(e).__name__}: {str(e)[:200]}",
                     "_where": f"{os.path.relpath(last.filename, str(C.REPO))}:{last.name}", "_tb": traceback.format_exc()[-1200:]}
+        if isinstance(e, C.NonFiniteOutput):
+            # the implementation handed out NaN / inf where the module expects finite numbers (it runs silently on the unchanged tree)
+            return {"_impl_error": f"the implementation reported a non-finite number where a finite one is due ({e})",
+                    "_where": "observation", "_tb": traceback.format_exc()[-1200:]}
         return {"_harness_error": f"{type(e).__name__}: {e}", "_tb": traceback.format_exc()[-1500:]}
 
 
@@ -70,7 +74,13 @@ def evaluate(mod, ctx, cases, pool):
         if "_harness_error" in o or "_impl_error" in o:
             spans.append((len(reqs), len(reqs)))
             continue
-        r = mod.requests(c, o)
+        try:
+            r = mod.requests(c, o)
+        except C.NonFiniteOutput as e:  # an observed number that should be finite is NaN / inf
+            o.clear()
+            o.update({"_impl_error": f"the implementation reported a non-finite number where a finite one is due ({e})", "_where": "observation",
+                      "_tb": traceback.format_exc()[-1200:]})
+            r = []
         spans.append((len(reqs), len(reqs) + len(r)))
         reqs.extend(r)
     replies = ctx.driver.batch(reqs)
@@ -91,7 +101,12 @@ def evaluate(mod, ctx, cases, pool):
         if bad:
             findings.append({"kind": "correspondence", "what": f"model driver refused the request: {bad[0]['driver_error']}", "case": c})
             continue
-        for f in mod.judge(c, o, rep):
+        try:
+            fs = list(mod.judge(c, o, rep))
+        except C.NonFiniteOutput as e:
+            fs = [{"kind": "property", "what": f"the implementation reported a non-finite number where a finite one is due ({e})",
+                   "observed": traceback.format_exc()[-1200:]}]
+        for f in fs:
             f.setdefault("case", c)
             findings.append(f)
         k = C.case_key(c)
